@@ -40,6 +40,7 @@ type fsEvent struct {
 	Returned bool
 	Err      error
 	NoFormat bool // the event carries bytes for ANOTHER format only: the sink must refuse it
+	Twin     bool // written through a second FileSink value configured for the same file
 }
 
 type fsCfgDesc struct {
@@ -210,6 +211,14 @@ func runFileSink(rc *RunCtx, prop string, crash bool, faults bool) {
 	ctx := context.Background()
 	model := &fsModel{sink: sink, rc: rc, logDir: logDir, base: base, ext: ext, rotEnabled: rotEnabled, wantMode: wantMode, decoys: decoys, preDecoys: preDecoys, sim: sim}
 
+	// two FileSink values on ONE plain-named, never rotating file (a sink rebuilt on a configuration
+	// reload while the old one still drains; two pipelines owning a sink each): appends interleave,
+	// nothing is overwritten
+	var twin *el.FileSink
+	if !seqMode && !rotEnabled && tp.Choose(3, "twin-sink") == 0 {
+		twin = &el.FileSink{Path: sink.Path, FileName: sink.FileName, Mode: sink.Mode, Format: sink.Format, TimestampOnlyOnRotate: sink.TimestampOnlyOnRotate, MaxFiles: sink.MaxFiles}
+		simrt.Probe("fs.twin-sink")
+	}
 	doWrite := func(e *fsEvent) {
 		ev := &el.Event{Type: "t", CreatedAt: time.Now(), Formatted: map[string][]byte{fkey: e.Data}}
 		if e.NoFormat {
@@ -226,7 +235,11 @@ func runFileSink(rc *RunCtx, prop string, crash bool, faults bool) {
 			tb = time.Now()
 			model.before(e)
 		}
-		out, err := sink.Process(ctx, ev)
+		target := sink
+		if e.Twin && twin != nil {
+			target = twin
+		}
+		out, err := target.Process(ctx, ev)
 		e.Err = err
 		stamp++
 		e.Ret = stamp
@@ -280,6 +293,9 @@ func runFileSink(rc *RunCtx, prop string, crash bool, faults bool) {
 				if !seqMode && tp.Choose(12, "noformat") == 0 {
 					e.NoFormat = true
 				}
+				if tp.Choose(2, "via-twin") == 0 {
+					e.Twin = true // (only matters when the run has a twin sink)
+				}
 				if !e.NoFormat && tp.Choose(14, "empty-entry") == 0 {
 					e.Data = []byte{} // the entry for the format exists and is empty
 					pd = append(pd, "(next write is empty)")
@@ -314,10 +330,20 @@ func runFileSink(rc *RunCtx, prop string, crash bool, faults bool) {
 					doWrite(st.ev)
 				case "reopen":
 					err := sink.Reopen()
+					if twin != nil {
+						twin.Reopen()
+					}
 					if seqMode {
 						model.afterReopen(err)
 					}
 				case "extrename":
+					if twin != nil {
+						// with two writers on the file an operator's rename splits the stream until BOTH have
+						// reopened; which file an event lands in meanwhile is not the library's decision
+						sink.Reopen()
+						twin.Reopen()
+						break
+					}
 					externalRename()
 					simrt.Yield("writer:between-rename-and-reopen")
 					err := sink.Reopen()
